@@ -84,10 +84,10 @@ def elf_list(tier):
     return [c for c in cands if c == 'self' or os.path.exists(c)]
 
 
-def text_walk(binary, tier):
+def text_walk(binary, tier, vexknown=()):
     """Runs the in-process text walk.  Returns (stats per elf, list of (ilen, window hex), '#differ'/'#oracle' lines)."""
     outp = os.path.join(C.BUILD, 'c16.text')
-    rc, log = C.run_probe(binary, 'TestVerifC16Text', '/dev/null', outp, env={'VERIF_ELFS': ':'.join(elf_list(tier))})
+    rc, log = C.run_probe(binary, 'TestVerifC16Text', '/dev/null', outp, env={'VERIF_ELFS': ':'.join(elf_list(tier)), 'VERIF_VEXKNOWN': ','.join(vexknown)})
     if rc != 0:
         raise C.Infra('C16 text walk failed: ' + log[-2000:])
     stats, wins, notes, opsd = {}, [], [], collections.Counter()
@@ -426,7 +426,8 @@ def run(tier):
         proof = {'ok': False, 'failed': [('table-dump', gen_msg)], 'obligations': 0, 'discharged': 0, 'cmds': [], 'axioms': {}}
     t_proof = time.time() - t0
     binary = probe_bin()
-    estats, wins, notes, opsd, fams, mwins = text_walk(binary, tier)
+    tins, npaths, vexknown = x86table.table_inputs(dump) if gen_ok else ([], 0, [])
+    estats, wins, notes, opsd, fams, mwins = text_walk(binary, tier, vexknown)
     # floors: a walk that silently covered nothing is a machinery failure, not a pass
     for name, st in estats.items():
         if 'error' in st:
@@ -437,7 +438,6 @@ def run(tier):
             raise C.Infra(f'C16 text walk: {name}: {st["unknown_abandoned"]} functions abandoned (neither the reference nor the length rule applies)')
     if len(estats) < 3 or len(wins) < 50_000 or sum(st.get('rule_validated', 0) for st in estats.values()) < 200:
         raise C.Infra(f'C16 text walk too small: {len(estats)} ELF files, {len(wins)} distinct instructions')
-    tins, npaths = x86table.table_inputs(dump) if gen_ok else ([], 0)
     ops, lanes = gen_ops(tier, rng, wins, mwins, tins)
     for need in ('text', 'trunc', 'mutated', 'stuffed', 'table', 'table-trunc', 'random', 'all2'):
         if lanes.count(need) == 0:
@@ -460,7 +460,7 @@ def run(tier):
         reach = set(cert) - {0}
         un = sorted(reach - covered)
         cov_stats = {'table_positions_reachable_mode64 (static over-approximation)': len(reach), 'executed_by_this_stream': len(reach & covered),
-                     'never_executed': len(un), 'never_executed_pcs': un[:80], 'table_paths_enumerated': npaths, 'table_inputs': len(tins)}
+                     'never_executed': len(un), 'never_executed_pcs': un[:80], 'table_paths_enumerated': npaths, 'vex_opcodes_with_a_table_entry': len(vexknown), 'table_inputs': len(tins)}
         if len(un) * 100 > len(reach):
             raise C.Infra(f'C16 stream executed only {len(reach & covered)} of {len(reach)} reachable table positions (floor 99%)')
     # 1. the property on the implementation (ops stream + the in-process walk over every instruction of the binaries)
